@@ -240,13 +240,16 @@ func (sm *SessionManager) background() {
 						}
 						// both new epoch pools and old epoch pools which has not been replaced will use new epochId to rebuild session
 						session, err := newClientSession(id, sm.epoch, sm.randID, sm.config)
-						sm.Unlock()
 						if err != nil {
+							sm.Unlock()
 							internalLogger.errorf("rebuild stream pool's sessionID %d %s failed, reason:%s. retry after %s", id, pool.Session().name, err.Error(), sessionRebuildInterval.String())
 							continue
 						}
+						// stored under the lock that covered the identity check: a hot restart handler that swaps
+						// sm.pools[id] right after the dial must park a pool that already holds the new session
 						session.manager = sm
 						pool.session.Store(session)
+						sm.Unlock()
 						internalLogger.warnf("rebuild stream pool's sessionID %d %s success", id, pool.Session().name)
 						break
 					}
